@@ -11,7 +11,11 @@ def program_sets(tier):
     C1 = ("close", 1000, b"bye", 5)
     C2 = ("close", 1001, b"also", 6)
     SC = ("server_close", 1000, b"srv")
+    # a Close without a body: close(None), and the echo of a server Close that has no status code
+    C0 = ("close", None, b"", 8)
+    SC0 = ("server_close", None, b"")
     sets = [
+        ([[C0], [T]], None), ([[C0], [C2]], None), ([[SC0], [T]], None), ([[SC0], [C1]], None),
         ([[C1], [T]], None), ([[C1], [B]], None), ([[C1], [P]], None), ([[C1], [C2]], None),
         ([[C1], [SC]], None), ([[SC], [T]], None), ([[C1, T], [SC]], None), ([[C1], [SC, PO]], None),
         ([[C1], [T, B]], None), ([[C1], [T]], "takeover"),
@@ -33,7 +37,7 @@ def run(rep, info, model, tier, seed):
     three = [s for s in sets if len(s[0]) == 3]
     conc.run_programs(rep, model, "C12", "C12:2-threads", two, bound=(3 if tier == "quick" else 99), limit=(4000 if tier == "quick" else 200000), which="c12")
     conc.run_programs(rep, model, "C12", "C12:3-threads", three, bound=(2 if tier == "quick" else 3), limit=(3000 if tier == "quick" else 60000), which="c12")
-    conc.run_programs_lines(rep, "C12", "C12:line-level", (two[:5] if tier == "quick" else two), limit=(150 if tier == "quick" else 1500), which="c12")
+    conc.run_programs_lines(rep, "C12", "C12:line-level", (two[:8] if tier == "quick" else two), limit=(150 if tier == "quick" else 1500), which="c12")
     if not proof_ok and not rep.violations:
         rep.broken("proof obligation props/C12.v no longer checks: %s" % (rep.coq_failure,))
 
